@@ -1268,6 +1268,8 @@ def select_any(items, i):
 
 
 def type_name(v):
+    if type(v).__name__ == 'PyGenerator':
+        return 'PyGenerator'
     if isinstance(v, Seq):
         return 'Seq'
     if v is None:
